@@ -607,9 +607,21 @@ pub fn observe_err(e: &reval::Error) -> OErr {
             // a reval error of an inner ruleset, whose function name carries the token
             error.downcast_ref::<Injected>().map(|i| i.0).or_else(|| match error.downcast_ref::<reval::Error>() {
                 Some(E::UserFunctionError { function: inner, .. }) => inner.strip_prefix("inner#").and_then(|t| t.parse().ok()),
+                // a failed conversion inside the user function (`param.try_into()?`), token in the value
+                Some(E::UnexpectedValueType(reval::value::Value::Int(t), who)) if who == "harness" => u64::try_from(*t).ok(),
                 _ => None,
             }),
-            error.to_string(),
+            // the message and what the carried error still *is* (a caller may downcast it)
+            format!(
+                "{error} <{}>",
+                if error.is::<Injected>() {
+                    "harness error".to_string()
+                } else if let Some(r) = error.downcast_ref::<reval::Error>() {
+                    format!("reval::Error::{}", format!("{r:?}").split(['(', ' ', '{']).next().unwrap_or(""))
+                } else {
+                    "opaque".to_string()
+                }
+            ),
         ),
         E::ValueOutOfBounds(v, _) => OErr::ValueOutOfBounds(RV::from_value(v)),
         E::DivisionByZero => OErr::DivisionByZero,
